@@ -222,7 +222,7 @@ def inner(ctx):
     for (n1, a), (n2, b) in zip(steps, steps[1:]):
         a, b = a[0], b[0]
         ready = _ready_edge(wi, a)
-        R.require(ready is not None and wi.edge_dominates(ready, b.bb), "order.%s<%s" % (n1, n2), b.where(),
+        R.require(ready is not None and flow.vedge_dominates(wi, ready, b.bb), "order.%s<%s" % (n1, n2), b.where(),
                   "%s completes (Poll::Ready) before %s starts" % (n1, n2),
                   fail_msg="%s is not dominated by completion of %s: acquisition order in write_inner changed" % (n2, n1))
     # construction dominated by the last
